@@ -2264,13 +2264,12 @@ impl FileClusterConfig {
                         }
                     }
                     let tcp_frontend = f.to_tcp_front()?;
-                    // the state refuses the second copy of a TCP/UDP frontend
-                    // (absent tags and an empty tag table are the same frontend there)
-                    let same = |a: &TcpFrontendConfig, b: &TcpFrontendConfig| {
-                        a.address == b.address
-                            && a.tags.clone().unwrap_or_default() == b.tags.clone().unwrap_or_default()
-                    };
-                    if frontends.iter().any(|known| same(known, &tcp_frontend)) {
+                    // the state keeps one TCP/UDP frontend per (cluster, address),
+                    // whatever its tags: it refuses a second one at the same address
+                    if frontends
+                        .iter()
+                        .any(|known: &TcpFrontendConfig| known.address == tcp_frontend.address)
+                    {
                         return Err(ConfigError::DuplicateFrontend {
                             cluster_id: cluster_id.to_owned(),
                             frontend: tcp_frontend.address.to_string(),
